@@ -329,7 +329,24 @@ fn gen_case(rng: &mut Rng) -> Case {
         let b = if underflow { a + 1 + g.rng.below(3) as i128 } else { g.rng.below(a as u64 + 1) as i128 };
         let c = target + b - a;
         if c >= 0 {
-            let text = if underflow || g.rng.bool() { format!("{a_text} - {b}usize + {c}usize") } else { format!("{c}usize + {a_text} - {b}usize") };
+            // (a quarter of the sizes overflows 2^32 inside min / max, where 32-bit and wider
+            // arithmetic give different results)
+            let wraps_in_min = g.rng.chance(1, 4);
+            let text = if wraps_in_min {
+                // (only forms whose value stays small under either arithmetic: the check runs in-process)
+                if g.rng.bool() {
+                    format!("min(4294967295usize + {}usize, {}usize)", target + 1, target + 7)
+                } else {
+                    format!("min({}usize, 4294967295usize + {}usize) + 0usize", target + 5, target + 1)
+                }
+            } else if underflow || g.rng.bool() {
+                format!("{a_text} - {b}usize + {c}usize")
+            } else {
+                format!("{c}usize + {a_text} - {b}usize")
+            };
+            if wraps_in_min {
+                uses.insert("inline const-expr array size that wraps at 2^32 inside min / max");
+            }
             uses.insert(if underflow { "inline const-expr array size with an underflowing intermediate" } else { "inline const-expr array size" });
             // the element type is itself a const-sized array in half of the cases (when a size >= 1 exists)
             let inner = sizes.iter().find(|sd| sd.value >= 1 && sd.value <= 4).filter(|_| g.rng.bool());
